@@ -163,6 +163,7 @@ pub const LENIENT: &[&str] = &[
     "1+", "1-", "12ab", "1.5.6", "0x10", "1e3x", "1:", "2a:", "1e400", "1e", "9.", "#%app", "#%", "#%1", "+a", "-a", "->x", "+.a", "-..", "...", ".a", "..", "a.b", "nil.", "t?", "?a", "?ab", "?\\", "a?", "&", "@a", "a@", "^", "_", "~a", "%", "<=>", "!$%&*/:<=>?^_~",
     "#\\x", "#\\x0", "#\\x10FFFF", "#\\λ", "#\\nul", "#\\delete", "#\\(", "#\\#", "#\\;", "#\\\"", "#\\'", "#\\ ", "\"\\x0;\"", "\"\\x10FFFF;\"", "\"\\|\"", "\"\\v\\f\"", "\"a\nb\"", "\"\t\"",
     "?\\^a", "?\\^Z", "?\\d", "?\\e", "?\\s", "?\\N{U+41}", "?\\u0041", "?\\U00000041", "?\\101", "?\\x41", "? ", "?\"", "?λ", "\"\\e\\d\\s\"", "\"\\^a\"", "\"\\101\"", "\"\\x41\"", "\"\\x41\\ b\"", "\"\\u00e9\\x41\"", "\"a\\\nb\"", "\"\\400\"", "\"\\x100\"", "\"\\q\"",
+    "\"\\xe9;\"", "\"\\x80;\\xff;\"", "\"caf\\xe9;\"", "#\\xe9", "#\\x80", "?\\xe9", "\"\\351\"",
     "-0", "+0", "-0.0", "00012", "1.50", "1.0e0", "1E3", "#e1", "#x-0", "#b-101", "#o777", "#d0012", "#xABCDEF", "18446744073709551616", "-9223372036854775809", "1e-400", "0.1e1",
 ];
 
@@ -255,6 +256,35 @@ pub fn sets(ctx: &Ctx) -> Vec<CaseSet> {
                 let p = mirror(&q);
                 check(rep, tok.as_bytes(), &q, &p, "lenient-alone", nofast);
                 check(rep, format!("({} x)", tok).as_bytes(), &q, &p, "lenient-in-list", nofast);
+            }
+        }),
+    ));
+    // nesting near and beyond the limit, through every nesting construct: what is
+    // accepted must still be accepted after printing (shorthands print in long form)
+    out.push(CaseSet::new(
+        "near-limit-nesting",
+        ctx.size(400, 4_000),
+        Box::new(move |rep, rng, _| {
+            let units: &[(&str, &str)] = &[("'", ""), ("`", ""), (",", ""), (",@", ""), ("(", ")"), ("#(", ")"), ("[", "]"), ("(a . ", ")")];
+            let total = rng.range(90, 140);
+            let mut open = String::new();
+            let mut close = String::new();
+            let mode = rng.below(3);
+            for i in 0..total {
+                let (o, c) = match mode {
+                    0 => units[rng.below(4)],               // only shorthands
+                    1 => units[rng.below(units.len())],      // anything
+                    _ => if i < total / 2 { units[4 + rng.below(4)] } else { units[rng.below(4)] }, // brackets outside, shorthands inside
+                };
+                open.push_str(o);
+                close.insert_str(0, c);
+            }
+            let text = format!("{}x{}", open, close);
+            let q = if rng.bool() { Q::default_() } else { Q::from_index(rng.below(N_Q)) };
+            rep.count("near-limit-nesting-inputs");
+            check(rep, text.as_bytes(), &q, &mirror(&q), "near-limit-nesting", nofast);
+            if rng.bool() {
+                check(rep, text.as_bytes(), &Q::elisp(), &P::elisp(), "near-limit-nesting", nofast);
             }
         }),
     ));
